@@ -1,15 +1,26 @@
 #!/bin/bash
-# runs every claimed check's quick command on the current tree, validates evidence
+# runs every claimed check's quick command on the current tree (RUNALL_JOBS at a time, default 2), validates evidence
+# usage: tools/runall.sh [quick|thorough]
 cd /verif
 if [ -n "$(git -C /repo status --porcelain)" ]; then echo "WARNING: /repo working tree not clean"; fi
+export GOFLAGS=-mod=mod GOPROXY=off GOSUMDB=off GOTOOLCHAIN=local
+if [ ! -x engine/bin/govc ] || [ -n "$(find engine -name '*.go' -newer engine/bin/govc 2>/dev/null | head -1)" ]; then
+  (cd engine && go build -o bin/govc .) || { echo "MACHINERY FAILURE: engine build failed"; exit 2; }
+fi
 ids=$(python3 -c "import json;print(' '.join(c['property_id'] for c in json.load(open('MANIFEST.json'))['checks']))")
-fail=0
-for id in $ids; do
-  out=$(./check $id --tier ${1:-quick} 2>&1); rc=$?
-  echo "$id rc=$rc $(echo "$out" | grep '^property' )"
-  echo "$out" | grep -E '^(VIOLATION|VACUITY|KNOWN-FINDING|MACHINERY)' | head -5
-  if [ $rc -ne 0 ]; then fail=1; echo "$out" | tail -15; fi
-done
+tier=${1:-quick}
+rm -f /tmp/runall.fail
+run1() {
+  id=$1; tier=$2
+  out=$(./check $id --tier $tier 2>&1); rc=$?
+  {
+    echo "$id rc=$rc $(echo "$out" | grep '^property' )"
+    echo "$out" | grep -E '^(VIOLATION|VACUITY|KNOWN-FINDING|MACHINERY)' | head -5
+    if [ $rc -ne 0 ]; then echo "$out" | tail -15; touch /tmp/runall.fail; fi
+  } | cat
+}
+export -f run1
+printf "%s\n" $ids | xargs -P ${RUNALL_JOBS:-2} -I{} bash -c "run1 {} $tier"
 python3-vt - <<'PY'
 import json,jsonschema,glob
 sch=json.load(open('/root/.vp/EVIDENCE.schema.json'))
@@ -20,4 +31,5 @@ for c in json.load(open('/verif/MANIFEST.json'))['checks']:
 jsonschema.validate(json.load(open('/verif/MANIFEST.json')),json.load(open('/root/.vp/MANIFEST.schema.json')))
 print('evidence+manifest valid')
 PY
-exit $fail
+[ -f /tmp/runall.fail ] && exit 1
+exit 0
